@@ -11,12 +11,13 @@ def _run_chunk(binary, chunk, timeout):
     todo = list(chunk)
     while todo:
         inp = "\n".join(json.dumps(c) for c in todo) + "\n"
-        p = subprocess.Popen([binary], stdin=subprocess.PIPE, stdout=subprocess.PIPE, stderr=subprocess.DEVNULL, text=True)
+        p = subprocess.Popen([binary], stdin=subprocess.PIPE, stdout=subprocess.PIPE, stderr=subprocess.PIPE, text=True,
+                             errors="replace")
         try:
-            so, _ = p.communicate(inp, timeout=timeout)
+            so, se = p.communicate(inp, timeout=timeout)
         except subprocess.TimeoutExpired:
             p.kill()
-            so, _ = p.communicate()
+            so, se = p.communicate()
         got = []
         for l in so.splitlines():
             if l.startswith("{"):
@@ -31,7 +32,15 @@ def _run_chunk(binary, chunk, timeout):
         if got and (got[-1].get("parse") == "timeout" or got[-1].get("run") == "timeout"):
             continue            # the worker exited on purpose after a timeout; nothing died
         # the worker died on todo[0] (or produced garbage): attribute and skip it
-        outs.append({"dead": True, "rc": p.returncode})
+        # a script that exits the process on purpose (exit(), a CLI application booted by an annotation at parse
+        # time) is not a crash: only a Go fatal error / unrecovered panic / signal counts as a death
+        tail = (se or "")[-3000:]
+        crashed = (p.returncode is None or p.returncode < 0 or p.returncode == 2 or
+                   any(k in tail for k in ("fatal error:", "panic:", "SIGSEGV", "stack overflow", "goroutine ")))
+        if crashed:
+            outs.append({"dead": True, "rc": p.returncode, "stderr": tail[-600:]})
+        else:
+            outs.append({"exited": True, "rc": p.returncode, "toks": [], "parse": "exit"})
         todo = todo[1:]
     return outs
 
